@@ -1,9 +1,12 @@
 """C02 - status flags after every instruction match real hardware where defined; unaffected flags keep their value."""
 import vlib
+import progcommon as pc
 import x86common as xc
 
 PROP = "C02"
 OWNS = lambda c: c == "flags"
+
+PROG_OWNS = lambda c, cls, m: c == "flags"
 
 
 def run(tier, seed):
@@ -21,10 +24,19 @@ def run(tier, seed):
                                       "note": "every 8-bit operand pair x carry-in (all counts for shifts) of every 8-bit form/shape against tables printed by TLC from X86.tla"}
         xc.finish_cov(rep, res, mc, "Incoming CF/PF/AF/ZF/SF/OF (and DF) drawn at random per case; shift counts from "
                       "{0,1,w-1,w,w+1,31,32,33,63,64,65,128,255,random} in CL and imm8; flag status per class: defined / undefined / unaffected.")
+        pc.phase(rep, tier, seed + 8200, wd, PROG_OWNS)
         return rep.finish()
     finally:
         vlib.cleanup(wd)
 
 
 def replay(path, seed):
+    import json as _j
+    _c = _j.load(open(path))["case"]
+    if _c.get("prog"):
+        _wd = vlib.workdir(PROP.lower() + "r")
+        try:
+            return pc.replay(vlib.Report(PROP, "quick", seed, "model_checking"), _c, _wd, PROG_OWNS)
+        finally:
+            vlib.cleanup(_wd)
     return xc.std_replay(PROP, path, seed, OWNS)
